@@ -129,13 +129,13 @@ def run_case(case):
         means.append(m)
         roots.append(L)
         covs.append(L @ L.T)
-    if not all(np.all(np.isfinite(m)) and np.all(np.isfinite(P)) for m, P in zip(means, covs)):
-        viols.append(util.viol("finite", "non-finite filter output", tags=tags))
-        return {"violations": viols, "obs": obs, "sigs": sigs}
-    if max(float(np.max(np.abs(m))) for m in means) > 1e4:
+    if max(float(np.nanmax(np.abs(np.where(np.isfinite(m), m, 1e300)))) for m in means) > 1e4:
         # the polynomial problem blows up on this grid (u' ~ u^3 with steps up to 1): numbers of size 1e14..1e120
         # next to damp^2 = 1e-2 cannot be represented in float64 by any implementation -> not judged
         return {"violations": [], "obs": {"cases": 1, "exploded_skipped": 1}, "sigs": []}
+    if not all(np.all(np.isfinite(m)) and np.all(np.isfinite(P)) for m, P in zip(means, covs)):
+        viols.append(util.viol("finite", "non-finite filter output", tags=tags))
+        return {"violations": viols, "obs": obs, "sigs": sigs}
     scale = np.asarray(sol.output_scale, float)  # (T,) or (T, d); some solvers omit the entry for t0
     if scale.shape[0] == T - 1:
         scale = np.concatenate([scale[:1], scale])
